@@ -1,8 +1,11 @@
 (* Proofs/FormsSeq.v - C12 on histories: a history of read calls leaves every object of the
    store as it was and every step answers what the same call answers alone on the untouched
-   store; hence the answers of a read history coincide in the three argument forms. *)
+   store; hence the answers of a read history coincide in the three argument forms.  Second half: the same for
+   histories whose GetTo steps share ONE caller-owned result buffer (ApiSeq.brun): the buffer is the only thing a
+   read history changes, a GetTo that is handed the buffer answers what it answers with an empty buffer of its own
+   (Proofs/GetBuf.v), and the answers and the buffer's content coincide in the three forms. *)
 From Coq Require Import List Bool String Ascii ZArith Arith Lia.
-From Verif Require Import Util Node Value Outcome FormsSpec Api ApiSeq FormsGet FormsMain.
+From Verif Require Import Util Node Value Outcome Get FormsSpec Api ApiSeq FormsGet FormsMain GetBuf.
 Import ListNotations.
 
 Lemma put_same {A} (l : list A) i x : nth_error l i = Some x -> put l i x = l.
@@ -66,4 +69,132 @@ Proof.
     unfold alone, exec_at. destruct st as [[|k] c]; cbn [fst snd nth_error] in *.
     + f_equal. exact (proj2 (forms_all n c v RC)).
     + destruct (nth_error rest k) as [[n' a']|]; reflexivity.
+Qed.
+
+(* ================= histories that share one result buffer ================= *)
+
+(* the histories of [run] are the histories of [brun] that never hand the shared buffer over *)
+Lemma brun_own_buffers h : forall s rb, brun s rb (own_buffers h) = map (fun x => (fst x, snd x, rb)) (run s h).
+Proof.
+  induction h as [|st r IH]; intros s rb; [reflexivity|].
+  cbn [own_buffers map brun run]. unfold bexec_at. cbn [fst snd call_of rbuf_after].
+  destruct st as [i c]. cbn [fst snd]. f_equal. apply IH.
+Qed.
+
+Lemma call_of_read rb hc : hcall_read hc = true -> is_read (call_of rb hc) = true.
+Proof. destruct hc; cbn; auto. Qed.
+
+Lemma bread_step s rb st : hcall_read (snd st) = true -> bexec_at s rb st = (balone s rb st, s).
+Proof.
+  intros R. unfold balone, bexec_at.
+  rewrite (read_step s (fst st, call_of rb (snd st))); [reflexivity|].
+  cbn [snd]. apply call_of_read. exact R.
+Qed.
+
+(* a read history changes nothing but the caller's result buffer: every step answers what the same call answers
+   alone on the untouched store when it is handed the buffer as the steps before it left it *)
+Theorem read_history_buf h : forall s rb, breads_only h = true -> brun s rb h = btrace s rb h.
+Proof.
+  induction h as [|st r IH]; intros s rb R; [reflexivity|].
+  cbn in R. apply andb_true_iff in R. destruct R as [R1 R2].
+  cbn [brun btrace]. rewrite (bread_step s rb st R1). cbn [fst snd]. rewrite (IH s _ R2). reflexivity.
+Qed.
+
+Corollary read_history_buf_store h s rb x : breads_only h = true -> In x (brun s rb h) -> snd (fst x) = s.
+Proof.
+  intros R. rewrite (read_history_buf h s rb R). clear R. revert rb.
+  induction h as [|st r IH]; intros rb I; [destruct I|].
+  cbn [btrace] in I. destruct I as [<-|I]; [reflexivity|]. eapply IH. exact I.
+Qed.
+
+(* ... and what the buffer holds does not matter to the call: a GetTo that is handed the shared buffer answers what
+   it answers with an empty buffer of its own, the buffer left as it was where that call stores nothing *)
+Definition rebuf_answer (rb : option ref) (a : answer) : answer :=
+  match a with AnsRef o => AnsRef (rebuf rb o) | _ => a end.
+
+Theorem getto_shared_alone s rb i path :
+  balone s rb (i, HGetTo path) = option_map (rebuf_answer rb) (balone s None (i, HGetTo path)).
+Proof.
+  unfold balone, bexec_at, exec_at. cbn [fst snd call_of].
+  destruct (nth_error s i) as [[n a]|]; [|reflexivity].
+  cbn [exec fst option_map rebuf_answer]. rewrite (get_to_buf false n a path rb). reflexivity.
+Qed.
+
+Lemma same_ref_answer_refl o : same_ref_answer o o.
+Proof. destruct o as [b|b e|k]; cbn; auto using same_buf_refl. Qed.
+
+Lemma rebuf_same bv bp ov op : same_buf bv bp -> same_ref_answer ov op -> same_ref_answer (rebuf bv ov) (rebuf bp op).
+Proof.
+  intros B.
+  assert (K : forall x y, same_buf x y ->
+            (x = None /\ y = None) \/ (exists r r', x = Some r /\ y = Some r')).
+  { intros x y [E|(rv & rp & -> & -> & _)].
+    - subst y. destruct x as [r|]; [right; exists r, r; auto|left; auto].
+    - right. exists rv, rp. auto. }
+  destruct ov as [x|x e|k], op as [y|y e'|k']; cbn [same_ref_answer]; try tauto.
+  - intros S. destruct (K x y S) as [(-> & ->)|(r & r' & -> & ->)]; cbn; [exact B|exact S].
+  - intros (E & S). destruct (K x y S) as [(-> & ->)|(r & r' & -> & ->)]; cbn; auto.
+Qed.
+
+Lemma rbuf_after_same bv bp hc av ap :
+  same_buf bv bp -> same_opt_answer av ap -> same_buf (rbuf_after bv hc av) (rbuf_after bp hc ap).
+Proof.
+  intros B S. destruct hc as [c|path]; [exact B|].
+  destruct av as [av|], ap as [ap|]; cbn [same_opt_answer] in S; [|destruct S|destruct S|exact B].
+  destruct av as [o| | | | | |], ap as [o0| | | | | |]; cbn [same_answer] in S; try discriminate S; try exact B.
+  cbn [rbuf_after].
+  destruct o as [x|x e|k], o0 as [y|y e'|k']; cbn [same_ref_answer] in S; try (destruct S; fail); try exact B; try exact S.
+  destruct S as [_ S]. exact S.
+Qed.
+
+(* one step: object 0 by value / by pointer, or any other object, under two buffers with the same content *)
+Lemma step_forms n v (rest : store) bv bp st : hcall_read (snd st) = true -> same_buf bv bp ->
+  same_opt_answer (balone ((n, AVal v) :: rest) bv st) (balone ((n, APtr (Some v)) :: rest) bp st).
+Proof.
+  intros R B. unfold balone, bexec_at, exec_at. destruct st as [[|k] hc]; cbn [fst snd nth_error] in *.
+  - destruct hc as [c|path]; cbn [call_of].
+    + exact (proj1 (forms_all n c v R)).
+    + cbn [exec fst same_opt_answer same_answer].
+      rewrite (get_to_buf false n (AVal v) path bv), (get_to_buf false n (APtr (Some v)) path bp).
+      apply rebuf_same; [exact B|apply get_to_by_value].
+  - destruct (nth_error rest k) as [[n' a']|]; cbn; [|exact I].
+    destruct hc as [c|path]; cbn [call_of]; [apply same_answer_refl|].
+    cbn [exec fst same_answer].
+    rewrite (get_to_buf false n' a' path bv), (get_to_buf false n' a' path bp).
+    apply rebuf_same; [exact B|apply same_ref_answer_refl].
+Qed.
+
+Lemma step_ptrptr n v (rest : store) rb st :
+  balone ((n, APtrPtr (Some (Some v))) :: rest) rb st = balone ((n, APtr (Some v)) :: rest) rb st.
+Proof.
+  unfold balone, bexec_at, exec_at. destruct st as [[|k] hc]; cbn [fst snd nth_error].
+  - f_equal. destruct (call_of rb hc); reflexivity.
+  - destruct (nth_error rest k) as [[n' a']|]; reflexivity.
+Qed.
+
+(* object 0 of the store in the three forms, the other objects whatever they are: the answers of a read history that
+   shares one result buffer coincide step by step, and so does what the buffer holds after every step *)
+Theorem history_forms_buf n v (rest : store) h : breads_only h = true -> forall bv bp, same_buf bv bp ->
+  Forall2 (fun x y => same_opt_answer (fst (fst x)) (fst (fst y)) /\ same_buf (snd x) (snd y))
+          (brun ((n, AVal v) :: rest) bv h) (brun ((n, APtr (Some v)) :: rest) bp h).
+Proof.
+  induction h as [|st r IH]; intros R bv bp B; [constructor|].
+  rewrite !(read_history_buf _ _ _ R).
+  cbn in R. apply andb_true_iff in R. destruct R as [R1 R2].
+  cbn [btrace].
+  pose proof (step_forms n v rest bv bp st R1 B) as S.
+  pose proof (rbuf_after_same bv bp (snd st) _ _ B S) as B'.
+  constructor; [cbn [fst snd]; split; assumption|].
+  rewrite <- !(read_history_buf r _ _ R2). apply IH; assumption.
+Qed.
+
+Theorem history_ptrptr_buf n v (rest : store) h : breads_only h = true -> forall rb,
+  map (fun x => (fst (fst x), snd x)) (brun ((n, APtrPtr (Some (Some v))) :: rest) rb h) =
+  map (fun x => (fst (fst x), snd x)) (brun ((n, APtr (Some v)) :: rest) rb h).
+Proof.
+  induction h as [|st r IH]; intros R rb; [reflexivity|].
+  rewrite !(read_history_buf _ _ _ R).
+  cbn in R. apply andb_true_iff in R. destruct R as [R1 R2].
+  cbn [btrace map fst snd]. rewrite (step_ptrptr n v rest rb st). f_equal.
+  rewrite <- !(read_history_buf r _ _ R2). apply IH. exact R2.
 Qed.
